@@ -290,6 +290,19 @@ def c08_5(c: Ctx) -> None:
     check_precreated_pending(c)
 
 
+@ob('C08.6', 'WMW', 'reading the results of a (completed) event never changes them: the accessor views mutate only containers they created themselves (same check as in C12.3)')
+def c08_6(c: Ctx) -> None:
+    from .c12 import WRAPPERS, impure_view_writes
+
+    for name in WRAPPERS + ['event_results_filtered']:
+        u = c.unit(MOD, f'BaseEvent.{name}')
+        bad = impure_view_writes(c, u)
+        if not bad:
+            c.ok(where(u), f'{name}: mutates only containers it created itself')
+        for node_, why_ in bad:
+            c.fail(u, f'{name}: {why_}', f'calling {name} mutates a recorded handler result: the results of a completed event change afterwards', node=node_)
+
+
 @ob('C08.4', 'WMW/DOM/SHAPE', 'an event is signalled complete only when all its results are terminal and all descendants are complete (same obligation as C03.1): an early signal is '
     'a completion that later changes')
 def c08_4(c: Ctx) -> None:
